@@ -89,11 +89,15 @@ func runCheck(ld *Loaded, db *SpecDB, work string, t0 time.Time) int {
 	admit := func(rep *FuncReport) []*Obligation {
 		var out []*Obligation
 		for _, ob := range rep.Obls {
-			if rep.Dependency && hasProp(ob.Props, "!explicit") && !hasProp(ob.Props, prop) && ob.Kind != "cover" {
-				// a clause written for another property: decided by that property's check
+			isInv := ob.Kind == "inv-entry" || ob.Kind == "inv-step"
+			if rep.Dependency && hasProp(ob.Props, "!explicit") && !hasProp(ob.Props, prop) && ob.Kind != "cover" && !isInv {
+				// a clause written for another property: decided by that property's check.
+				// (Not so for loop invariants: whatever property they were written for, they are
+				// assumed after the loop by every clause of the function, so every check that
+				// relies on the function has to see them hold.)
 				continue
 			}
-			if prop == "" || rep.Dependency || hasProp(ob.Props, prop) || ob.Kind == "cover" {
+			if prop == "" || rep.Dependency || hasProp(ob.Props, prop) || ob.Kind == "cover" || isInv {
 				if rep.Dependency && prop != "" && !hasProp(ob.Props, prop) {
 					ob.Props = append(append([]string(nil), ob.Props...), prop)
 				}
@@ -481,6 +485,14 @@ func finish(ld *Loaded, db *SpecDB, reports []*FuncReport, groups map[string]*ob
 		case baseline[n] || movedFromBaseline(baseline, bad):
 			violations++
 			p := writeReplayNote(prop, n, bad, "obligation was discharged on the baseline tree and is not discharged now")
+			lines = append(lines, fmt.Sprintf("VIOLATION property=%s replay=%s no-failing-input-found", prop, p))
+		case bad.Status == "failed" && bad.Kind == "frame" && bad.Func == bad.Host && baselineHasFunc(baseline, bad.Func):
+			// `modifies` is one clause of the contract; it is checked per written location, and a
+			// location the function did not write on the baseline tree has no obligation of its
+			// own there. The clause was discharged on the baseline tree; now the function writes
+			// a location outside it, and the solver has a model.
+			violations++
+			p := writeReplayNote(prop, n, bad, "the modifies clause of the function was discharged on the baseline tree; this location outside it is written now (model attached)")
 			lines = append(lines, fmt.Sprintf("VIOLATION property=%s replay=%s no-failing-input-found", prop, p))
 		case bad.Status == "failed" && bad.Kind == "safety" && (baselineHasFunc(baseline, bad.Func) || baselineHasFunc(baseline, bad.Host)):
 			// Panic freedom is an obligation of the function as a whole: every run-time check of
